@@ -3,6 +3,7 @@ package props
 import (
 	"bytes"
 	"fmt"
+	strend "github.com/cinar/indicator/v2/strategy/trend"
 	"regexp"
 	"runtime"
 	"strings"
@@ -336,6 +337,46 @@ func c09(ctx *run.Ctx, raceOnly bool) {
 	}
 	for b := 0; b < ctx.Pick(6, 40); b++ {
 		ctx.Case(fmt.Sprintf("helpers/%d", b), func(cc *run.Case) { c09Helpers(cc, raceOnly) })
+	}
+	// Groups built over sub-slices of ONE list share its backing array: whatever
+	// one group does (Compute, Report) must leave the members of the other alone.
+	if !raceOnly {
+		ctx.Case("groups-over-one-list", func(cc *run.Case) {
+			mk := func() []strategy.Strategy {
+				return []strategy.Strategy{strategy.NewBuyAndHoldStrategy(), strend.NewMacdStrategyWith(3, 6, 2), strend.NewBopStrategy(), strend.NewQstickStrategy()}
+			}
+			snaps := reg.Snaps(gen.Bars(cc.R, gen.Walk2, 90))
+			type pair struct {
+				name string
+				mk   func(l []strategy.Strategy) (strategy.Strategy, strategy.Strategy)
+			}
+			for _, p := range []pair{
+				{"Or", func(l []strategy.Strategy) (strategy.Strategy, strategy.Strategy) {
+					return strategy.NewOrStrategy("a", l[:2]...), strategy.NewOrStrategy("b", l[2:]...)
+				}},
+				{"And", func(l []strategy.Strategy) (strategy.Strategy, strategy.Strategy) {
+					return strategy.NewAndStrategy("a", l[:2]...), strategy.NewAndStrategy("b", l[2:]...)
+				}},
+				{"Majority", func(l []strategy.Strategy) (strategy.Strategy, strategy.Strategy) {
+					return strategy.NewMajorityStrategyWith("a", l[:2]), strategy.NewMajorityStrategyWith("b", l[2:])
+				}},
+			} {
+				_, bFresh := p.mk(mk())
+				want := runStrat(bFresh, snaps)
+				a, b := p.mk(mk())
+				runStrat(a, snaps)
+				if _, err := renderRows(a, snaps); err != nil {
+					cc.Inconclusive("report rendering failed: " + err.Error())
+					return
+				}
+				if got := runStrat(b, snaps); !eqActions(got, want) {
+					cc.Viol("", fmt.Sprintf("two %s groups over the two halves of one list of strategies: after Compute and Report on the first group the second one recommends differently from a group built over its own list", p.name), map[string]any{"group": p.name})
+					return
+				}
+				cc.Count("sequential_calls", 3)
+			}
+			cc.Distinct("groups-over-one-list")
+		})
 	}
 	base := baseStrats(ctx, nrand)
 	var small []namedStrat
